@@ -21,9 +21,59 @@ violation:
   - v-nested
 warning:
   - w-cmp
+  - v-wide-or
+  - v-two-kinds
 info:
   - i-shapes
 validations:
+  v-wide-or:
+    targetClass: ex.T
+    message: one of four pairs
+    or:
+      - and:
+          - propertyConstraints:
+              ex.w1:
+                minCount: 1
+          - propertyConstraints:
+              other.w2:
+                minCount: 1
+      - and:
+          - propertyConstraints:
+              other.w3:
+                minCount: 1
+          - propertyConstraints:
+              ex.w4:
+                minCount: 1
+      - and:
+          - propertyConstraints:
+              ex.w5:
+                minCount: 1
+          - propertyConstraints:
+              other.w6:
+                minCount: 1
+      - and:
+          - propertyConstraints:
+              other.w7:
+                minCount: 1
+          - propertyConstraints:
+              ex.w8:
+                minCount: 1
+      - propertyConstraints:
+          ex.w9:
+            minCount: 1
+  v-two-kinds:
+    targetClass: ex.T
+    message: two expression kinds in one mapping
+    propertyConstraints:
+      ex.q:
+        minCount: 1
+    or:
+      - propertyConstraints:
+          ex.p:
+            minCount: 3
+      - propertyConstraints:
+          ex.low:
+            minCount: 1
   v-and:
     targetClass: ex.T
     message: "p is {{ex.p}} and q is {{ ex.q }}"
@@ -76,7 +126,21 @@ validations:
         minCount: 1
 """
 
-RICH_DATA = json.dumps([
+def _wide_nodes():
+    out = []
+    ns = {1: "ns", 2: "other", 3: "other", 4: "ns", 5: "ns", 6: "other", 7: "other", 8: "ns"}
+    for k in range(40):
+        bits = (k * 37 + 11) % 256
+        n = {"@id": "http://example.org/w%d" % k, "@type": ["http://example.org/ns#T"], "http://example.org/ns#q": "ok",
+             "http://example.org/ns#p": "x"}
+        for i in range(1, 9):
+            if bits >> (i - 1) & 1:
+                n["http://example.org/%s#w%d" % (ns[i], i)] = "v"
+        out.append(n)
+    return out
+
+
+RICH_DATA = json.dumps(_wide_nodes() + [
     {"@id": "http://example.org/n1", "@type": ["http://example.org/ns#T"], "http://example.org/ns#q": "toolong",
      "http://example.org/ns#child": [{"@id": "http://example.org/n2"}], "http://example.org/ns#low": 5, "http://example.org/ns#high": 3},
     {"@id": "http://example.org/n2", "@type": ["http://example.org/ns#T"], "http://example.org/ns#p": ["a", "b", "c"],
@@ -117,7 +181,7 @@ def run(tier):
     chosen += [w for w in walks if w not in chosen]
     walks = chosen[:nwalks]
     missing = kinds - set(op["op"] for w in walks for op in w)
-    if missing or len(kinds) < 16:
+    if missing or len(kinds) < 17:
         raise vlib.Infra("rewrite kinds not covered by the simulated walks: %s (have %s)" % (sorted(missing), sorted(kinds)))
     bases = [(RICH_PROFILE, RICH_DATA, "rich"), (corpus.OK_PROFILE, c09.DOCS["fail3"], "ok"),
              (corpus.OK_PROFILE_NESTED, c09.DOCS["failNested"], "nested")]
